@@ -291,6 +291,14 @@ impl Drop for TmpDir {
 /// writer and readers; nothing is abstracted, TLC compares the bytes of every double
 fn raw_events(tr: &mut Trace, r: &mut Rng, t: i32, ncases: usize) {
     use crate::raw::*;
+    // the operators of F64Bits against the hardware: what Rust says about pairs of doubles
+    let pairs: Vec<Value> = (0..12).map(|i| {
+        let a = gen_f64(r, true);
+        let b = match i % 4 { 0 => a, 1 => -a, 2 => f64::from_bits(a.to_bits() ^ 1), _ => gen_f64(r, true) };
+        json!({"a": a.to_le_bytes().to_vec(), "b": b.to_le_bytes().to_vec(), "lt": a < b, "eq": a == b, "le": a <= b,
+               "nanA": a.is_nan(), "nodataA": a.is_nan() || a <= shapefile::NO_DATA, "minAB": a.min(b).to_le_bytes().to_vec()})
+    }).collect();
+    tr.run(json!({"ev": "f64", "pairs": pairs}));
     for _ in 0..ncases {
         let n = 1 + r.below(3);
         let built = guarded(|| (0..n).map(|_| build_raw(&gen_raw(r, t))).collect::<Vec<Shape>>());
